@@ -416,7 +416,26 @@ async fn run(_tier: Tier) {
         sim::harness_error(format!("trust anchor: {:?}", e));
         return;
     }
-    let cfg = Config::new();
+    // Tuning knobs per run: tiny caches make the miss / eviction paths run,
+    // short validities make cached nodes expire between queries.
+    let mut cfg = Config::new();
+    let mut iter_insecure_limit = 100u16;
+    if sim::chance("cfg.tuned", 1, 2) {
+        cfg.set_max_node_cache(*sim::pick("cfg.node_cache", &[100u64, 1, 2]));
+        cfg.set_max_nsec3_cache(*sim::pick("cfg.nsec3_cache", &[100u64, 1]));
+        cfg.set_max_isig_cache(*sim::pick("cfg.isig_cache", &[1000u64, 1, 3]));
+        cfg.set_max_usig_cache(*sim::pick("cfg.usig_cache", &[1000u64, 1, 3]));
+        cfg.set_max_validity(Duration::from_secs(*sim::pick("cfg.max_validity", &[604_800u64, 60, 3600])));
+        cfg.set_max_bogus_validity(Duration::from_secs(*sim::pick("cfg.max_bogus_validity", &[30u64, 1, 300])));
+        cfg.set_bad_signatures(*sim::pick("cfg.bad_signatures", &[1u8, 2, 8]));
+        cfg.set_max_cname_dname(*sim::pick("cfg.max_cname_dname", &[11u8, 3, 100]));
+        iter_insecure_limit = *sim::pick("cfg.nsec3_iter_insecure", &[100u16, 100, 3]);
+        cfg.set_nsec3_iter_insecure(iter_insecure_limit);
+        sim::stat("probe.validator_config_tuned");
+    }
+    // World 2 hashes NSEC3 with 5 iterations: above the insecure limit its
+    // denials are not checked and count as Insecure.
+    let nsec3_unchecked = world_idx == 2 && iter_insecure_limit < 5;
     let vc = Arc::new(ValidationContext::with_config(ta, up.clone(), cfg));
     // A third of the runs go through the client-side wrapper and observe
     // the AD bit / SERVFAIL it produces instead of the validation state.
@@ -671,7 +690,7 @@ async fn run(_tier: Tier) {
             }
             if !cache_poisoned && in_window && clock_plan != 7 && clock_plan != 8 {
                 let want = if *c_insecure { "Insecure" } else { "Secure" };
-                let opt_out_negative = world_idx == 3 && matches!(*cc, "nxdomain" | "wildcard" | "wildcard-nodata" | "cname-nxdomain" | "dname-nxdomain");
+                let opt_out_negative = (world_idx == 3 && matches!(*cc, "nxdomain" | "wildcard" | "wildcard-nodata" | "cname-nxdomain" | "dname-nxdomain")) || (nsec3_unchecked && !cc.starts_with("positive") && !matches!(*cc, "cname" | "dname"));
                 if cstate != want && !(opt_out_negative && cstate == "Insecure") {
                     sim::violation(
                         P,
@@ -753,7 +772,7 @@ async fn run(_tier: Tier) {
             // With NSEC3 opt-out a covering NSEC3 cannot prove that no
             // insecure delegation exists there (RFC 5155 section 9.2):
             // such negative / wildcard answers may be reported Insecure.
-            let opt_out_negative = world_idx == 3 && matches!(class, "nxdomain" | "wildcard" | "wildcard-nodata" | "cname-nxdomain" | "dname-nxdomain");
+            let opt_out_negative = (world_idx == 3 && matches!(class, "nxdomain" | "wildcard" | "wildcard-nodata" | "cname-nxdomain" | "dname-nxdomain")) || (nsec3_unchecked && !class.starts_with("positive") && !matches!(class, "cname" | "dname"));
             if state != want && !(opt_out_negative && state == "Insecure") {
                 sim::violation(
                     P,
